@@ -1,6 +1,6 @@
 SPECIFICATION Spec
 CONSTANTS
-  Variant = "fixed"
+  Variant = "catchup"
   E = 0
   VPerO = 1
   MaxZ = 4
